@@ -191,6 +191,13 @@ def runAll (c : Cfg) : Streams → List (Pkt × UInt16 × UInt32) → Streams
   | ss, [] => ss
   | ss, (p, a, b) :: rest => runAll c (forward c ss p a b).1 rest
 
+/-- `p` arrives in order for the stream state `st`: first packet of the stream, or not older than the
+last in-order one (`delta < 0x8000_0000`) -/
+def InOrder (st : Stream) (p : Pkt) : Prop :=
+  match st.lastSrcTs with
+  | none => True
+  | some last => p.ts - last < halfRange
+
 /-- an arriving packet with its two random draws -/
 abbrev In := Pkt × UInt16 × UInt32
 
